@@ -35,6 +35,9 @@ def run(ctx):
     lib_kind4.root_threshold(ctx, py)
     lib_kind4.diff_order(ctx, py)
     lib_kind4.virtual_root_lists(ctx, py)
+    # the sweep of tsk_treeseq_init_trees assigns each mutation's edge: its two halves must be inverses
+    from . import lib_sweep
+    lib_sweep.sweep_inverse(ctx, P, tus=["trees"], floor=3)
     lib_kind.py_copy_state(ctx, py, [("trees", "Tree")])
     lib_py.kw_forward(ctx, py, mods=("trees",), only=ps)
     lib_variant.sample_walks(ctx, P, tus=("trees",), floor=2)
